@@ -124,7 +124,13 @@ func init() { gin.SetMode(gin.ReleaseMode) }
 
 // NewProc builds a logical process. hooks are attached to its redis client before anything uses it.
 func (w *World) NewProc(hooks ...redis.Hook) *Proc {
-	client := redis.NewClient(&redis.Options{Addr: w.MR.Addr(), MaxRetries: -1, PoolSize: 8})
+	client := redis.NewClient(&redis.Options{Addr: w.MR.Addr(), MaxRetries: -1, PoolSize: 8,
+		// in-memory transport straight into miniredis: no TCP connection per process per case
+		Dialer: func(context.Context, string, string) (net.Conn, error) {
+			c, s := memPipe()
+			w.MR.Server().ServeConn(s)
+			return c, nil
+		}})
 	for _, h := range hooks {
 		client.AddHook(h)
 	}
